@@ -225,6 +225,21 @@ def static_never_grows(prog, res):
     users = {c.name for c in prog.callers().get("ZSTD_createDDictHashSet", [])}
     res.check(users == {"ZSTD_DCtx_refDDict"}, R, "ZSTD_createDDictHashSet:callers", prog.fn("ZSTD_createDDictHashSet").loc,
               "hash set only created by ZSTD_DCtx_refDDict under refMultipleDDicts", "new creator of the DDict hash set: %s" % sorted(users))
+    # a static workspace is never "wasteful": the shrink heuristic (which ends in `static cctx : no resize` -> memory_allocation)
+    # counts consecutive oversized uses, and that counter must never advance for a caller-provided block
+    bumps = 0
+    for fb in prog.fns_in("compress/zstd_compress.c"):
+        for b, i, c in fb.calls("ZSTD_cwksp_bump_oversized_duration"):
+            bumps += 1
+            heap = cond_edges(fb, lambda cc: cc.get("k") == "mem" and cc.get("f") == "staticSize", "false")
+            res.check(bool(heap) and fb.must_pass(via_edges=heap, targets=[(b, i)]), R, "%s:oversized-duration-heap-only" % fb.name, "%s:%s" % (fb.file, c.get("l")),
+                      "the oversized-duration counter only advances on the !staticSize edge",
+                      "%s advances the workspace's oversized-duration counter for static contexts too: after %s consecutive small operations the workspace is "
+                      "declared wasteful, a resize is requested, and a context in caller-provided memory fails with memory_allocation" % (fb.name, "128"))
+    incr = [g.name for g in prog.all_functions() if g.file.startswith("lib/compress/") and
+            any(x.get("k") == "un" and x.get("op", "").endswith("++") and strip_casts(x["e"]).get("f") == "workspaceOversizedDuration" for _, _, r in g.roots() for x in walk(r))]
+    res.check(bumps >= 1 and incr == ["ZSTD_cwksp_bump_oversized_duration"], R, "oversized-duration:single-incrementer", "lib/compress/zstd_cwksp.h",
+              "only ZSTD_cwksp_bump_oversized_duration advances the counter (%d call site(s))" % bumps, "incrementers of workspaceOversizedDuration: %s" % incr)
     for name, rec in (("ZSTD_initStaticCCtx", None), ("ZSTD_initStaticDCtx", None), ("ZSTD_initStaticCDict", None), ("ZSTD_initStaticDDict", None)):
         f2 = prog.fn(name)
         rets_null = [(b, i) for b, i, r in f2.returns() if const_val(r.get("e")) == 0]
@@ -236,7 +251,7 @@ def static_never_grows(prog, res):
         gs = guards.guard_sites(f3)
         ok = any("memory_allocation" in g2.codes for g2 in gs) or any("f:staticSize" in f3.anchors(f3.resolve_x(c)) for _, c, _, _ in f3.branches()) or name == "ZSTD_freeCDict"
         res.check(ok, R, name + ":refuses-static", f3.loc, "static objects are not freed", "free of a static object no longer refused")
-    res.need(R, 11)
+    res.need(R, 13)
 
 
 def bump_allocator(prog, res):
